@@ -78,6 +78,7 @@ type Addr struct {
 // World is one manager under test plus harness bookkeeping.
 type World struct {
 	Handles   []Handle // C05: objects obtained and used while unlocked
+	Abandoned bool     // a goroutine is parked inside the manager: do not Close
 	R         *rand.Rand
 	Dir       string
 	Path      string
